@@ -229,7 +229,7 @@ impl Property for C01 {
         ]
     }
     fn random_cases(&self, tier: Tier) -> u64 {
-        tier.pick(48_000, 3_200_000)
+        tier.pick(240_000, 6_000_000)
     }
     fn fixed_parts(&self, ctx: &mut Ctx) -> Vec<Violation> {
         let mut out = vec![];
